@@ -199,6 +199,21 @@ func cliSelect(c *fw.Ctx) {
 			}
 			sels = append(sels, s)
 		}
+		if s0 := sels[0]; s0.re != nil && rr.Intn(3) == 0 {
+			// a second selector whose text starts with the text of the first one
+			// and accepts more: the selection is the union of both.
+			ext := "|beta"
+			if strings.Contains(s0.str, "/label=") {
+				ext = "|^h7$|^h1$"
+			}
+			e := sel{key: s0.key, re: regexp.MustCompile(s0.re.String() + ext), str: s0.str + ext}
+			if rr.Intn(2) == 0 {
+				sels = append(sels, e)
+			} else {
+				sels = append([]sel{e}, sels...)
+			}
+			c.Bucket("cli:select selector that extends another one's text")
+		}
 		strand := []string{"", "both", "forward", "reverse"}[rr.Intn(4)]
 		invert := rr.Intn(3) == 0
 		args := []string{"select"}
@@ -326,6 +341,15 @@ func cliSearch(c *fw.Ctx) {
 		for n := 1 + (it/2)%2; n > 0; n-- {
 			L := 30 + rr.Intn(50)
 			gb, seq := cliRecord(rr, L, true)
+			if it%7 == 3 && len(gbs) == 0 {
+				// a scaffold spacer: spelled with letters that are their own
+				// complement only.
+				for i := range seq {
+					seq[i] = "nnnnwsnNSW"[rr.Intn(10)]
+				}
+				gb.Origin = seqio.NewOrigin(seq)
+				c.Bucket("cli:search record of self-complementary letters")
+			}
 			if rna {
 				seq = bytes.ReplaceAll(seq, []byte("t"), []byte("u"))
 				gb.Origin = seqio.NewOrigin(seq)
